@@ -149,6 +149,8 @@ def run(ck):
                 norm(rets[0].value.args[0]) == fi.node.args.args[0].arg
             ck.ob(R5, fid, ok, "delegates to _to_tuple unchanged" if ok else
                   f"{fid} does not return _to_tuple(<argument>, validator)", fi, fi.node)
+        from rules.shared import argument_not_consumed_before_tuple
+        argument_not_consumed_before_tuple(ck, R5)
         # loops iterate the stored tuples directly
         n_loops = 0
         from rules.shared import set_output_run
